@@ -51,11 +51,13 @@ run() {
     C18-m7) extra="C16 C15" ;;
     C19-m8) extra="C06" ;;
   esac
+  [ -n "${MATRIX_OWN:-}" ] && extra=""   # own check only
+  grep -q "^$s check=$own " /tmp/mx/matrix.txt 2>/dev/null && [ -n "${MATRIX_RESUME:-}" ] && return 0
   tools/matrix.sh $s $(echo $own $extra | tr ' ' '\n' | awk '!seen[$0]++' | tr '\n' ' ')
 }
 export -f run
 # MATRIX_FILTER (a regular expression on the names) runs a part only and appends to the result
 F=${MATRIX_FILTER:-.}
-[ "$F" = "." ] && rm -f /tmp/mx/matrix*.txt
-ls seeded | grep -E '^C[0-9]+-m[0-9]+$' | grep -E -e "$F" | xargs -P 4 -I{} bash -c 'run {}' >> /tmp/mx/matrix.txt 2>&1
+[ "$F" = "." ] && [ -z "${MATRIX_RESUME:-}" ] && rm -f /tmp/mx/matrix*.txt
+ls seeded | grep -E '^C[0-9]+-m[0-9]+$' | grep -E -e "$F" | xargs -P ${MATRIX_PAR:-4} -I{} bash -c 'run {}' >> /tmp/mx/matrix.txt 2>&1
 echo done >> /tmp/mx/matrix.txt
